@@ -75,7 +75,7 @@ def fam_c11_migrate(rng, i):
     times = sorted(first + k * rng.choice([4 * d + 7, 200, 500]) for k in range(n_rebind))
     p = {
         "seed": rng.randrange(1, 2**40), "bidi": rng.choice([0, 1]), "uni": 0, "suni": rng.choice([1, 2, 3]),
-        "size": rng.choice([300000, 1000000]), "chunk": 20000, "delay_ms": d, "deadline_ms": 120000, "payloads": 0,
+        "size": rng.choice([300000, 1000000]), "chunk": 20000, "delay_ms": d, "deadline_ms": 120000, "wire_head": 1600,
         "rebind_at_ms": ",".join(str(t) for t in times), "rebind_ip": rng.choice([0, 1, 2]),
     }
     k = i % 4
